@@ -294,6 +294,8 @@ def parse_rvalue(r):
     m = re.match(r"^(.+)::(\w+)$", r, re.S)
     if m:
         return ("variant", m.group(1), m.group(2), ())
+    if re.match(r"^\w+$", r):
+        return ("variant", "", r, ())       # bare (trimmed-path) unit variant, e.g. `NONE` for SIPrefix::NONE
     raise Unsupported("rvalue " + r)
 
 
